@@ -6,6 +6,11 @@ package app
 // overlay; nothing here is called by repo code.
 
 import (
+	"encoding/json"
+	"fmt"
+	"sort"
+
+	"github.com/lianxiangcloud/linkchain/libs/common"
 	"github.com/lianxiangcloud/linkchain/libs/log"
 	"github.com/lianxiangcloud/linkchain/state"
 	"github.com/lianxiangcloud/linkchain/types"
@@ -42,4 +47,53 @@ func (app *LinkApplication) VerifC05ProcessOn(block *types.Block, st *state.Stat
 		out.Receipts = *pr.receipts
 	}
 	return out
+}
+
+// VerifC05KeptDigest describes the objects the application keeps between two block executions and that an execution
+// which is NOT committed must leave untouched: the result of the last committed block (including every field of every
+// candidate and the candidate index), the coefficients, the validator list learnt from consensus, the current block, and
+// the uncommitted content of the committed-state object and of the mempool-side state object. The cache of executed
+// proposals (processMap) is not part of it: CheckBlock legitimately adds to it.
+func (app *LinkApplication) VerifC05KeptDigest() string {
+	app.stateLock.Lock()
+	defer app.stateLock.Unlock()
+	res, err := json.Marshal(app.lastTxsResult)
+	if err != nil {
+		return "lastTxsResult does not encode: " + err.Error()
+	}
+	var idx []string
+	for k, v := range app.lastTxsResult.CandidatesMap {
+		c, _ := json.Marshal(v)
+		idx = append(idx, k+"="+string(c))
+	}
+	sort.Strings(idx)
+	coe, _ := json.Marshal(app.lastCoe)
+	var vals []string
+	for _, v := range app.lastVals {
+		vals = append(vals, fmt.Sprintf("%x/%d/%x", v.Address, v.VotingPower, v.CoinBase))
+	}
+	cur := common.EmptyHash
+	if app.currentBlock != nil {
+		cur = app.currentBlock.Hash()
+	}
+	return fmt.Sprintf("last=%s\nspecial%d outputs%d images%d\nindex=%v\ncoe=%s\nvals@%d=%v\nblock=%x\nstore:%s\nchecktx:%s", res, len(app.lastTxsResult.SpecialTxs()),
+		len(app.lastTxsResult.UTXOOutputs()), len(app.lastTxsResult.KeyImages()), idx, coe, app.lastValChanegHeight, vals, cur, app.storeState.VerifC05Digest(), app.checkTxState.VerifC05Digest())
+}
+
+// VerifC05InstallCandidates puts the node into the situation "candidates were elected at the last vote height": the
+// storage records the candidates system contract would hold (written into the committed-state object, so that the next
+// committed block persists them like any other state change) and the candidate list in the result of the last block
+// (which every block result inherits and persists). What is NOT executed is the election itself (calculateCandidates at
+// heights that are multiples of VotePeriod = 1321, which needs the WASM system contracts deployed by `linkchain init`
+// and dereferences the p2p connection manager). To be called on a fresh node before its first block.
+func (app *LinkApplication) VerifC05InstallCandidates(cands []*types.CandidateInOrder, contract common.Address, slots map[common.Hash][]byte) {
+	keys := make([]common.Hash, 0, len(slots))
+	for k := range slots {
+		keys = append(keys, k)
+	}
+	sort.Slice(keys, func(i, j int) bool { return keys[i].Hex() < keys[j].Hex() })
+	for _, k := range keys {
+		app.storeState.SetState(contract, k, slots[k])
+	}
+	app.lastTxsResult.Candidates = cands
 }
